@@ -6,10 +6,10 @@
    incident_beam / scattered_beam obtain from a data array that carries the three positions.
    (That the public functions of beamline_components.py use these graphs, on every call and
    whatever was called before, is the subject of the call-history correspondence run.) *)
-From Coq Require Import Reals ZArith String List Lra.
+From Coq Require Import Reals ZArith String List Lra Bool.
 From Verif.Sem Require Import Field Val RInst RLemmas.
 From Verif.Vec Require Import Vec3.
-From Verif.C03 Require Import SemExt Graph.
+From Verif.C03 Require Import SemExt Graph GraphNeeds.
 From Run Require Import GenBeamline GenGraph Tie.
 Import ListNotations.
 Open Scope string_scope.
@@ -68,6 +68,92 @@ Lemma graph_beams_given :
   /\ resolve O FUEL (g_beamline_scatter O) (env_beams O b1 b2) "incident_beam" = b1
   /\ resolve O FUEL (g_beamline_scatter O) (env_beams O b1 b2) "scattered_beam" = b2.
 Proof using. repeat split; reflexivity. Qed.
+
+(* ---- data that carries only PART of the coordinates (Verif.C03.GraphNeeds) *)
+(* a monitor: source and detector position, no sample.  Ltotal without scattering is the straight distance
+   (through beamline(scatter=False) and through Ltotal(scatter=False)); the two positions are handed back *)
+Lemma graph_monitor_resolves :
+  resolve O FUEL (g_beamline_no_scatter O) (env_monitor O src pos) "Ltotal" = total_straight_beam_length_no_scatter O src pos
+  /\ resolve O FUEL (g_Ltotal_no_scatter O) (env_monitor O src pos) "Ltotal" = total_straight_beam_length_no_scatter O src pos
+  /\ missing O FUEL (g_beamline_no_scatter O) (map fst (env_monitor O src pos)) "Ltotal" = []
+  /\ resolve O FUEL (g_beamline_scatter O) (env_monitor O src pos) "position" = pos
+  /\ resolve O FUEL (g_beamline_scatter O) (env_monitor O src pos) "source_position" = src.
+Proof using. repeat split; reflexivity. Qed.
+
+(* ... every quantity that involves the sample is refused, naming the sample position *)
+Lemma graph_monitor_refuses :
+  forallb (fun n => same_set (missing O FUEL (g_beamline_scatter O) (map fst (env_monitor O src pos)) n) ["sample_position"])
+          ["incident_beam"; "scattered_beam"; "L1"; "L2"; "two_theta"; "Ltotal"; "sample_position"] = true.
+Proof using. vm_compute. reflexivity. Qed.
+
+(* a secondary flight path alone (sample + detector): scattered_beam and L2; a primary one alone: incident_beam and L1 *)
+Lemma graph_secondary_resolves :
+  resolve O FUEL (g_beamline_scatter O) (env_secondary O smp pos) "scattered_beam" = sca
+  /\ resolve O FUEL (g_beamline_scatter O) (env_secondary O smp pos) "L2" = L2 O sca
+  /\ resolve O FUEL (g_L2 O) (env_secondary O smp pos) "L2" = L2 O sca
+  /\ resolve O FUEL (g_scattered_beam O) (env_secondary O smp pos) "scattered_beam" = sca
+  /\ forallb (fun n => same_set (missing O FUEL (g_beamline_scatter O) (map fst (env_secondary O smp pos)) n) ["source_position"])
+             ["incident_beam"; "L1"; "two_theta"; "Ltotal"; "source_position"] = true
+  /\ missing O FUEL (g_beamline_no_scatter O) (map fst (env_secondary O smp pos)) "Ltotal" = ["source_position"].
+Proof using. repeat split; reflexivity. Qed.
+
+Lemma graph_primary_resolves :
+  resolve O FUEL (g_beamline_scatter O) (env_primary O src smp) "incident_beam" = inc
+  /\ resolve O FUEL (g_beamline_scatter O) (env_primary O src smp) "L1" = L1 O inc
+  /\ resolve O FUEL (g_L1 O) (env_primary O src smp) "L1" = L1 O inc
+  /\ resolve O FUEL (g_incident_beam O) (env_primary O src smp) "incident_beam" = inc
+  /\ forallb (fun n => same_set (missing O FUEL (g_beamline_scatter O) (map fst (env_primary O src smp)) n) ["position"])
+             ["scattered_beam"; "L2"; "two_theta"; "Ltotal"; "position"] = true
+  /\ missing O FUEL (g_beamline_no_scatter O) (map fst (env_primary O src smp)) "Ltotal" = ["position"].
+Proof using. repeat split; reflexivity. Qed.
+
+(* precomputed lengths / beams instead of positions: what the data carries is used, the rest is computed *)
+Variables l1 l2 : val O.
+Lemma graph_lengths_given :
+  resolve O FUEL (g_beamline_scatter O) (env_lengths O l1 l2) "Ltotal" = total_beam_length O l1 l2
+  /\ resolve O FUEL (g_Ltotal_scatter O) (env_lengths O l1 l2) "Ltotal" = total_beam_length O l1 l2
+  /\ resolve O FUEL (g_beamline_scatter O) (env_lengths O l1 l2) "L1" = l1
+  /\ resolve O FUEL (g_beamline_scatter O) (env_lengths O l1 l2) "L2" = l2
+  /\ resolve O FUEL (g_beamline_scatter O) (env_L1_secondary O l1 smp pos) "Ltotal" = total_beam_length O l1 (L2 O sca)
+  /\ resolve O FUEL (g_beamline_scatter O) (env_beam_secondary O b1 smp pos) "Ltotal" = total_beam_length O (L1 O b1) (L2 O sca)
+  /\ resolve O FUEL (g_beamline_scatter O) (env_beam_secondary O b1 smp pos) "two_theta" = two_theta O b1 sca
+  /\ resolve O FUEL (g_beamline_scatter O) (env_primary_beam O src smp b2) "Ltotal" = total_beam_length O (L1 O inc) (L2 O b2)
+  /\ resolve O FUEL (g_beamline_scatter O) (env_primary_beam O src smp b2) "two_theta" = two_theta O inc b2.
+Proof using. repeat split; reflexivity. Qed.
+
+(* EVERY combination of carried coordinates (2^9) and every node: the inputs the graphs of this run lack are exactly
+   those the Euclidean definition of the quantity needs and the data does not carry — so a quantity is obtainable
+   iff it is defined by what the data carries, through beamline(scatter) and through each special-purpose graph *)
+Notation needs_exact g scatter targets :=
+  (forallb (fun have => forallb (fun n => same_set (missing O FUEL g have n) (needs FUEL scatter have n)) targets)
+           (subsets COORDS)).
+Definition INPUTS : list string := ["position"; "source_position"; "sample_position"].
+Definition T_SCATTER : list string := ["incident_beam"; "scattered_beam"; "L1"; "L2"; "two_theta"; "Ltotal"] ++ INPUTS.
+Definition T_NO_SCATTER : list string := "Ltotal" :: INPUTS.
+Lemma needs_exact_scatter : needs_exact (g_beamline_scatter O) true T_SCATTER = true.
+Proof using. vm_cast_no_check (eq_refl true). Qed.
+Lemma needs_exact_no_scatter : needs_exact (g_beamline_no_scatter O) false T_NO_SCATTER = true.
+Proof using. vm_cast_no_check (eq_refl true). Qed.
+Lemma needs_exact_subgraphs :
+  needs_exact (g_incident_beam O) true ["incident_beam"]
+  && needs_exact (g_scattered_beam O) true ["scattered_beam"]
+  && needs_exact (g_L1 O) true ["L1"; "incident_beam"]
+  && needs_exact (g_L2 O) true ["L2"; "scattered_beam"]
+  && needs_exact (g_two_theta O) true ["two_theta"; "incident_beam"; "scattered_beam"]
+  && needs_exact (g_Ltotal_scatter O) true ["Ltotal"; "L1"; "L2"; "incident_beam"; "scattered_beam"]
+  && needs_exact (g_Ltotal_no_scatter O) false ["Ltotal"] = true.
+Proof using. vm_cast_no_check (eq_refl true). Qed.
+
+Lemma graph_needs_exact : forall have n, In have (subsets COORDS) ->
+  (In n T_SCATTER -> same_set (missing O FUEL (g_beamline_scatter O) have n) (needs FUEL true have n) = true)
+  /\ (In n T_NO_SCATTER -> same_set (missing O FUEL (g_beamline_no_scatter O) have n) (needs FUEL false have n) = true).
+Proof using.
+  intros have n Hh; split; intros Hn.
+  - pose proof needs_exact_scatter as H.
+    rewrite forallb_forall in H. specialize (H have Hh). rewrite forallb_forall in H. exact (H n Hn).
+  - pose proof needs_exact_no_scatter as H.
+    rewrite forallb_forall in H. specialize (H have Hh). rewrite forallb_forall in H. exact (H n Hn).
+Qed.
 End Any.
 
 (* ---------------------------------------------------------------- Euclidean meaning (over R) *)
@@ -126,5 +212,38 @@ Proof using.
     as (_ & _ & _ & _ & E5 & _).
   eexists; split; [unfold E; rewrite E5; apply two_theta_of_positions; assumption |].
   split; [reflexivity | apply angle_range].
+Qed.
+(* a monitor (source (x0..), detector (x2..), no sample): Ltotal without scattering is |position - source| *)
+Lemma graph_monitor_euclid x0 y0 z0 x2 y2 z2 s : s > 0 ->
+  let E := env_monitor O (tv x0 y0 z0 s d_m) (tv x2 y2 z2 s d_m) in
+  is_qty h mn (resolve O FUEL (g_beamline_no_scatter O) E "Ltotal") (norm (vminus (phys x2 y2 z2 s) (phys x0 y0 z0 s))) s d_m DF64
+  /\ is_qty h mn (resolve O FUEL (g_Ltotal_no_scatter O) E "Ltotal") (norm (vminus (phys x2 y2 z2 s) (phys x0 y0 z0 s))) s d_m DF64.
+Proof using.
+  intros Hs E.
+  destruct (graph_monitor_resolves O (tv x0 y0 z0 s d_m) (tv x2 y2 z2 s d_m)) as (E1 & E2 & _).
+  unfold E. rewrite E1, E2.
+  split; apply total_straight_beam_length_no_scatter_exact; assumption.
+Qed.
+
+(* a secondary path alone (sample (x1..), detector (x2..)) / a primary path alone (source (x0..), sample (x1..)) *)
+Lemma graph_partial_euclid x0 y0 z0 x1 y1 z1 x2 y2 z2 s : s > 0 ->
+  let src := phys x0 y0 z0 s in let smp := phys x1 y1 z1 s in let pos := phys x2 y2 z2 s in
+  let S := vminus pos smp in let I := vminus smp src in
+  is_qty h mn (resolve O FUEL (g_beamline_scatter O) (env_secondary O (tv x1 y1 z1 s d_m) (tv x2 y2 z2 s d_m)) "L2") (norm S) s d_m DF64
+  /\ is_vec h mn (resolve O FUEL (g_beamline_scatter O) (env_secondary O (tv x1 y1 z1 s d_m) (tv x2 y2 z2 s d_m)) "scattered_beam")
+                 (vx S) (vy S) (vz S) s d_m
+  /\ is_qty h mn (resolve O FUEL (g_beamline_scatter O) (env_primary O (tv x0 y0 z0 s d_m) (tv x1 y1 z1 s d_m)) "L1") (norm I) s d_m DF64
+  /\ is_vec h mn (resolve O FUEL (g_beamline_scatter O) (env_primary O (tv x0 y0 z0 s d_m) (tv x1 y1 z1 s d_m)) "incident_beam")
+                 (vx I) (vy I) (vz I) s d_m.
+Proof using.
+  intros Hs src smp pos S I.
+  destruct (graph_secondary_resolves O (tv x1 y1 z1 s d_m) (tv x2 y2 z2 s d_m)) as (A1 & A2 & _).
+  destruct (graph_primary_resolves O (tv x0 y0 z0 s d_m) (tv x1 y1 z1 s d_m)) as (B1 & B2 & _).
+  rewrite A1, A2, B1, B2.
+  repeat split.
+  - apply L2_of_positions; assumption.
+  - apply straight_scattered_beam_exact.
+  - apply L1_of_positions; assumption.
+  - apply straight_incident_beam_exact.
 Qed.
 End Euclid.
